@@ -1,17 +1,25 @@
 #!/usr/bin/env python3
-"""Generates /verif/MANIFEST.json from tools/claims.json and validates it.
+"""Generates /verif/MANIFEST.json and validates it.
 
-claims.json:
-  {"claimed": {"C25": {"text": ..., "note": ..., "technique": ..., "design_ref": ...}, ...},
-   "not_applicable": {"C01": "reason", ...}}
-Every property id of properties.jsonl must be in exactly one of the two maps.
+A property is claimed when harness/props/<id>.json has a "claim" block
+({"text": ..., "note": ..., "technique"?: ..., "design_ref"?: ...}); every other
+property id must have a reason in tools/not_applicable.json.
 """
 import json, os, sys
 
 root = os.path.dirname(os.path.dirname(os.path.abspath(__file__)))
-claims = json.load(open(os.path.join(root, "tools/claims.json")))
+claims = json.load(open(os.path.join(root, "tools/not_applicable.json")))
 ids = [json.loads(l)["id"] for l in open(os.path.join(root, "properties.jsonl")) if l.strip()]
-claimed, na = claims["claimed"], claims["not_applicable"]
+na = dict(claims["not_applicable"])
+claimed = {}
+pdir = os.path.join(root, "harness/props")
+for fn in sorted(os.listdir(pdir)):
+    if fn.endswith(".json"):
+        pc = json.load(open(os.path.join(pdir, fn)))
+        if "claim" in pc:  # a property is claimed once its props file carries a claim block
+            claimed[fn[:-5]] = pc["claim"]
+for i in claimed:
+    na.pop(i, None)
 for i in ids:
     if (i in claimed) == (i in na):
         sys.exit(f"{i}: must be in exactly one of claimed / not_applicable")
